@@ -23,8 +23,8 @@ type PropDef struct {
 	ID          string
 	Rule        string
 	Assumptions []string
-	Gen   func(t *rapid.T, thorough bool) *Case
-	Check func(c *Case, st *Stats) *Failure
+	Gen         func(t *rapid.T, thorough bool) *Case
+	Check       func(c *Case, st *Stats) *Failure
 }
 
 var Props = map[string]*PropDef{}
